@@ -3,12 +3,14 @@
 import json, sys
 pid, wt, out = sys.argv[1], sys.argv[2], sys.argv[3]
 n = sys.argv[4] if len(sys.argv) > 4 else "3"
+STYLE = sys.argv[5] if len(sys.argv) > 5 else ""
 rec = None
 for l in open('/verif/properties.jsonl'):
     r = json.loads(l)
     if r['id'] == pid:
         rec = r
 mech = "\n".join("  - %s (%s)" % (m.get('name'), m.get('where')) for m in rec['anchors'].get('mechanism', []))
+EXTRA = {"": "", "B": "Additional requirement for this run: avoid the obvious one-token changes (a flipped comparison, an off-by-one constant, a dropped `!`). Prefer (a) refactorings that move or merge code across two functions, (b) two cooperating edits that each look fine alone, (c) changes to caching / incremental state / bookkeeping that only matter after backtracking or on a second call, (d) changes in helper files OUTSIDE the ones listed above that the listed code relies on. At least two of your changes must be of kinds (a)-(d).\n\n", "C": "Additional requirement for this run: every change must be made in a file that is NOT among the files listed above (helpers, containers, basic types, contexts, statistics, option parsing, front-end glue) and must still break the property through the listed code relying on it.\n\n"}[STYLE]
 print(f"""You are helping to evaluate a verification tool for the Rust project ConSol-Lab/Pumpkin (a lazy-clause-generation constraint programming solver). Your job is to play the role of a developer who introduces a subtle bug.
 
 Your working copy is a git worktree at {wt} (a full checkout of the repository; build with `cargo build --offline`, test with `cargo test --workspace --no-fail-fast --offline`; there is NO network). Work ONLY inside {wt} and write your results to {out}. Do not read or write anything under /verif or /repo, and do not look at other directories under /tmp.
@@ -36,4 +38,4 @@ For each change k = 1..{n} write into {out}/m<k>/ :
 
 Process: first build and run the test-suite once on the clean worktree to get the baseline (it takes a few minutes). Then, for each change: edit, build, run your demonstration, run the full test-suite, save the files, and `git checkout -- . && git clean -fdq -e target` to return to the clean tree before the next change. Leave the worktree clean at the end. If a candidate change makes an existing test fail, discard it and try a different one. Be economical: do not explore the whole code base, focus on the files named above.
 
-Finish with a short report listing, per change, the one-line summary and whether all five conditions were verified.""")
+{EXTRA}Finish with a short report listing, per change, the one-line summary and whether all five conditions were verified.""")
